@@ -178,6 +178,15 @@ fn scale_text_mutant(t: &str, line: usize, n: usize) -> Option<String> {
     }
     let mut s = out.join("\n"); s.push('\n'); Some(s)
 }
+const BLOCK_N: [usize; 9] = [1, 255, 256, 4096, 65535, 65536, 65537, 70000, 131072];
+/// a text object file with one code block at `origin` that declares `n` words and carries `n + delta` word lines
+/// (`mixed`: every 7th word is a reserved `????` word, otherwise the block is one initialized run)
+fn block_text(origin: u32, n: usize, delta: i64, mixed: bool) -> String {
+    let mut t = format!("LC-3 OBJ FILE\n\n.TEXT\n{origin:04X}\n{n}\n");
+    for k in 0..(n as i64 + delta).max(0) { t.push_str(if mixed && k % 7 == 3 { "????\n" } else { "1234\n" }); }
+    t.push_str("\n.SYMBOL\n\n.LINKER_INFO\n\n.DEBUG\n");
+    t
+}
 const SCALE_N: [usize; 6] = [255, 256, 257, 65535, 65536, 70000];
 fn scale_texts() -> Vec<String> {
     // a small debug object with an addressed line followed by an unaddressed one, and a linked object with labels and relocations
@@ -278,6 +287,17 @@ pub fn run(ctx: &Ctx) -> Report {
         if let Some((sig, d)) = res { acc.violation(sig, format!("scale:{ti}:{li}:{n}"), d); }
     });
     rep.absorb(r);
+    // (c'') code blocks whose declared length and number of word lines are both scaled (consistently, and off by one): lengths on both sides
+    //       of 2^8 and 2^16 and beyond the address space, at origins that do and do not make the block wrap
+    let r = sweep(ctx, 4 * BLOCK_N.len() as u64 * 3 * 2, 1, |j, acc| {
+        let (o, n, d, mixed) = ([0x3000u32, 0x0000, 0xFFF0, 0xFFFF][(j % 4) as usize], BLOCK_N[(j / 4 % BLOCK_N.len() as u64) as usize], (j / (4 * BLOCK_N.len() as u64) % 3) as i64 - 1, j / (12 * BLOCK_N.len() as u64) == 1);
+        let m = block_text(o, n, d, mixed);
+        acc.evals += 1; acc.transitions += 1; acc.count("scaled_code_blocks", 1);
+        let (accepted, res) = check_text(&m);
+        if accepted { acc.nontrivial += 1; acc.count("accepted", 1); acc.count("scaled_code_blocks_accepted", 1); } else { acc.count("rejected", 1); }
+        if let Some((sig, d2)) = res { acc.violation(sig, format!("blk:{o}:{n}:{d}:{}", mixed as u8), format!("text object file with one code block at x{o:04X} declaring {n} words followed by {} word lines: {d2}", n as i64 + d)); }
+    });
+    rep.absorb(r);
     rep.require(rep.acc.get("scale_text_mutants_accepted") > 5, "some very long tables were accepted by the reader and exercised");
     // (d) short texts
     for t in ["", "LC-3 OBJ FILE", "LC-3 OBJ FILE\n.DEBUG\n=", "LC-3 OBJ FILE\n.DEBUG\n=\n=", "LC-3 OBJ FILE\n.DEBUG\n=\n=\n=", "LC-3 OBJ FILE\n.DEBUG\nLABEL | INDEX\n=", "LC-3 OBJ FILE\n.TEXT\nFFFF\n2\n0000\n0000", "LC-3 OBJ FILE\n.TEXT\n", "LC-3 OBJ FILE\nFFFF", "LC-3 OBJ FILE\n.SYMBOL\nADDR | EXT | LABEL\n0000 | 1 | A\n.LINKER_INFO\nADDR | LABEL\n3000 | A",
@@ -294,6 +314,7 @@ pub fn run(ctx: &Ctx) -> Report {
 
 pub fn replay(case: &str) -> Option<String> {
     if let Some(h) = case.strip_prefix("bin:") { return check_bin(&unhex(h)?).1.map(|x| format!("[{}] {}", x.0, x.1)); }
+    if let Some(r) = case.strip_prefix("blk:") { let q: Vec<i64> = r.split(':').filter_map(|x| x.parse().ok()).collect(); return check_text(&block_text(*q.first()? as u32, *q.get(1)? as usize, *q.get(2)?, *q.get(3)? == 1)).1.map(|x| x.1); }
     if let Some(r) = case.strip_prefix("scale:") { let q: Vec<usize> = r.split(':').filter_map(|x| x.parse().ok()).collect(); let st = scale_texts(); return check_text(&scale_text_mutant(st.get(*q.first()?)?, *q.get(1)?, *q.get(2)?)?).1.map(|x| format!("[{}] {}", x.0, x.1)); }
     if let Some(h) = case.strip_prefix("txt:") { return check_text(&String::from_utf8(unhex(h)?).ok()?).1.map(|x| format!("[{}] {}", x.0, x.1)); }
     None
